@@ -104,4 +104,9 @@ def ldt_from(cid: str, n: int, nod: int):
 
 
 def ldt_total(ldt) -> int:
-    return ldt.date._days_since_epoch * DAY + ldt.nanosecond_of_day
+    nod = ldt.nanosecond_of_day
+    if not 0 <= nod < DAY:
+        from harness.core import Mismatch
+
+        raise Mismatch("local-time-not-normalised", f"nanosecond_of_day={nod}")
+    return ldt.date._days_since_epoch * DAY + nod
